@@ -131,18 +131,32 @@ def walk_inl(n):
             stack.extend(reversed(x))
 
 
-def materialize(node, closures_only=True):
+def emits_code(inl):
+    """Is the expanded callee a lowering helper (it emits instructions or translates sub-expressions itself)?"""
+    if inl.get("callee") in ("emit", "translate_expr", "translate_stmt", "get_ty"):
+        return False
+    return any(x["k"] == "MethodCall" and x["m"] in ("emit", "translate_expr", "translate_stmt") for x in q.walk(inl["body"]))
+
+
+def materialize(node, closures_only=True, pred=None):
     """A copy of `node` in which every call of a local closure (or, with closures_only=False, of any expanded helper) is
     replaced by a block holding the callee's body with its parameters substituted: rules that interpret a function body
     statement by statement then see `ret.push(Line::Instr { instr: X, .. })` where the source says `emit(X)`."""
     if isinstance(node, list):
-        return [materialize(x, closures_only) for x in node]
+        return [materialize(x, closures_only, pred) for x in node]
     if not isinstance(node, dict):
         return node
     inl = node.get("inl")
-    if isinstance(inl, dict) and node.get("k") in ("Call", "MethodCall") and (not closures_only or (node["k"] == "Call" and "::" not in q.show(node["f"]) and inl.get("closure"))):
-        body = materialize(inl["body"], closures_only)
+    take = isinstance(inl, dict) and node.get("k") in ("Call", "MethodCall") and ((pred(inl) if pred is not None else (not closures_only or (node["k"] == "Call" and "::" not in q.show(node["f"]) and inl.get("closure")))))
+    if take:
+        body = materialize(inl["body"], closures_only, pred)
         if body.get("k") == "Block":
             return body
         return {"k": "Block", "l": node.get("l", 0), "stmts": [{"k": "ExprStmt", "e": body, "semi": False, "l": node.get("l", 0)}]}
-    return {k: materialize(v, closures_only) for k, v in node.items() if k != "inl"}
+    out = {k: (materialize(v, closures_only, pred) if k != "inl" else v) for k, v in node.items()}
+    # a condition that became a literal through parameter substitution selects its branch
+    if out.get("k") == "If" and isinstance(out.get("c"), dict) and out["c"].get("k") == "Lit" and out["c"].get("t") == "bool":
+        if out["c"]["v"] == "true":
+            return out["t"]
+        return out["e"] if out.get("e") is not None else {"k": "Block", "l": out.get("l", 0), "stmts": []}
+    return out
